@@ -32,8 +32,34 @@ func (c *FnCtx) addObl(o *Obligation) {
 func (c *FnCtx) execBlock(st *State, stmts []ast.Stmt) []Exit {
 	live := []*State{st}
 	var exits []Exit
-	for _, s := range stmts {
+	for si, s := range stmts {
 		if len(live) == 0 {
+			break
+		}
+		// `L: stmt ... goto L` (backward goto to a label in this block): the statements from the label to the end of the
+		// block form a loop without invariant: everything they modify is havoced, one pass is executed, the goto ends the path
+		if ls, ok := s.(*ast.LabeledStmt); ok && c.gotoTargets[ls.Label.Name] && !c.gotoActive[ls.Label.Name] {
+			ms := newModSet()
+			for _, r := range stmts[si:] {
+				c.collectMods(r, ms)
+			}
+			c.gotoActive[ls.Label.Name] = true
+			var next []*State
+			for _, l := range live {
+				c.havoc(l, ms, "goto_"+ls.Label.Name)
+				for _, ex := range c.execBlock(l, stmts[si:]) {
+					switch {
+					case ex.kind == exGoto && ex.label == ls.Label.Name:
+						// back edge: covered by the havoc
+					case ex.kind == exNormal:
+						next = append(next, ex.st)
+					default:
+						exits = append(exits, ex)
+					}
+				}
+			}
+			delete(c.gotoActive, ls.Label.Name)
+			live = c.mergeStates(next)
 			break
 		}
 		var next []*State
@@ -170,6 +196,9 @@ func (c *FnCtx) exec(st *State, s ast.Stmt) []Exit {
 			return []Exit{{kind: exContinue, label: lab, st: st}}
 		case token.FALLTHROUGH:
 			return []Exit{{kind: exFallthrough, st: st}}
+		}
+		if x.Tok == token.GOTO && c.gotoTargets[lab] {
+			return []Exit{{kind: exGoto, label: lab, st: st}}
 		}
 		c.rejected = "goto at " + c.pos(x)
 		return nil
